@@ -443,6 +443,13 @@ def process(ctx, cases, st):
                 perr = parse_check(c, xf)
                 o = run_chain(c, xf)
                 v = chain_oracle(c, xf)
+                if c['fmt'] != 'GRAY' and c.get('px') is not None and not v:
+                    # a filter keeps its xform objects for its whole life: the SAME objects then meet a frame of the other colour order (another topic, a later
+                    # frame) - they must treat it as freshly parsed ones do (no state carried from frame to frame)
+                    c2 = dict(c, fmt='RGB' if c['fmt'] == 'BGR' else 'BGR')
+                    if c2.get('jpg_hex'): c2.pop('jpg_hex')
+                    o2, o2f = run_chain(c2, xf), run_chain(c2, parse_chain(c2))
+                    if o2 != o2f: v = [('xform-state-across-frames', f'transforms {[x["s"] for x in c["xf"]]} applied to a {c2["fmt"]} frame AFTER a {c["fmt"]} frame give another result than freshly parsed ones')]
             except Exception as e:
                 o = 'raises:parse:' + errname(e); v = [('xform-parse-raises', f'valid xform strings {[x["s"] for x in c["xf"]]} rejected: {errname(e)}')]
         impl.append(o); viols.append(v); parse_err.append(perr)
